@@ -23,8 +23,9 @@ Rec2 == ndJsonDeserialize(IOEnv.TRACE2)
 NSLOT == 8
 
 VARIABLES l, slots, it, poisoned, nchk, nviol, nskip,
-          pcache      \* [n, maps]: index maps of all input permutations of the size last canonized
-vars == <<l, slots, it, poisoned, nchk, nviol, nskip, pcache>>
+          pcache,     \* [n, maps]: index maps of all input permutations of the size last canonized
+          bstart      \* line of the last rand_begin: the draws of a batch are read back from the trace itself
+vars == <<l, slots, it, poisoned, nchk, nviol, nskip, pcache, bstart>>
 
 -----------------------------------------------------------------------------
 (* What is strict in which mode *)
@@ -303,12 +304,52 @@ TwoVerdict(e) ==
   ELSE IF TwoOK(e) THEN Good(slots, it)
   ELSE Bad("wrong result")
 
+-----------------------------------------------------------------------------
+(* C19: random().  Random(n) is a non-deterministic action: any well-formed table of n variables. *)
+(* Non-degeneracy is a property of the history: at rand_end the draws of the batch are read   *)
+(* back from the trace (no order between threads is assumed).                                 *)
+RandomVerdict(e) ==
+  IF MODE # "C19" THEN Adopt(e, it)
+  ELSE IF e.out # "ok" THEN Bad("random() did not return")
+  ELSE IF Len(e.post) = 1 /\ e.post[1].t.n = e.n /\ WFTab(e.post[1].t) THEN Good(slots, it)
+  ELSE Bad("malformed random table")
+
+RandEndOK(e) ==
+  LET ks == {k \in (bstart + 1)..(l - 1) : Rec[k].op = "random"}
+      tabs == Concrete([k \in ks |-> ToSet(Rec[k].post[1].t.on)])
+      n == e.n
+      thr(t) == {k \in ks : Rec[k].thr = t}
+      \* per thread: signature of an assignment = the draws on which it is true, normalised
+      \* against complementation on the thread's first draw
+      sigs(t) == LET kt == thr(t)
+                     k0 == Min(kt)
+                 IN {LET sg == {k \in kt : m \in tabs[k]} IN IF k0 \in sg THEN kt \ sg ELSE sg : m \in Dom(n)}
+  IN /\ Cardinality(ks) = e.threads * e.count
+     /\ \A k \in ks : Cardinality(tabs[k]) >= 0                     \* (normalises the sets for fast membership)
+     /\ \A t \in 0..(e.threads - 1) :
+          /\ Cardinality(thr(t)) = e.count
+          \* every assignment receives both values
+          /\ UNION {tabs[k] : k \in thr(t)} = Dom(n)
+          /\ \A m \in Dom(n) : \E k \in thr(t) : m \notin tabs[k]
+          \* no assignment is constant, and no two assignments are tied (equal or complementary)
+          /\ Cardinality(sigs(t)) = 2^n
+          /\ {} \notin sigs(t)
+     \* draws differ from one another, also across threads
+     /\ IF n >= 8 THEN Cardinality({tabs[k] : k \in ks}) = Cardinality(ks)
+                  ELSE Cardinality({tabs[k] : k \in ks}) >= (IF n = 0 THEN 2 ELSE 3)
+
+RandEndVerdict(e) ==
+  IF MODE # "C19" THEN Setup(slots, it)
+  ELSE IF RandEndOK(e) THEN Good(slots, it) ELSE Bad("degenerate random batch")
+
 Verdict(e) ==
   IF e.out = "skip" THEN Poison
+  ELSE IF e.op = "rand_begin" THEN Setup(slots, it)
+  ELSE IF e.op = "rand_end" THEN RandEndVerdict(e)
+  ELSE IF e.op = "random" THEN RandomVerdict(e)
   ELSE IF e.ty = "two" THEN TwoVerdict(e)
   ELSE IF e.op = "canon" THEN CanonVerdict(e)
   ELSE IF e.op = "conv_int" THEN ConvIntVerdict(e)
-  ELSE IF e.op = "random" THEN Adopt(e, it)
   ELSE GenericVerdict(e)
 
 \* Dual traces: the same script run a second time (other build profile / other table type)
@@ -324,15 +365,15 @@ Init == /\ l = 1
         /\ poisoned = FALSE
         /\ nchk = 0 /\ nviol = 0 /\ nskip = 0
         /\ pcache = [n |-> 0, maps |-> PermMaps(0)]
+        /\ bstart = 0
 
 StepOf(e) ==
      IF e.op = "reset" THEN
         /\ slots' = [s \in 0..(NSLOT - 1) |-> NoVal]
         /\ it' = NoIter
         /\ poisoned' = FALSE
-        /\ UNCHANGED <<nchk, nviol, nskip>>
-        /\ UNCHANGED pcache
-     ELSE IF poisoned THEN UNCHANGED <<slots, it, poisoned, nchk, nviol, nskip, pcache>>
+        /\ UNCHANGED <<nchk, nviol, nskip, pcache, bstart>>
+     ELSE IF poisoned THEN UNCHANGED <<slots, it, poisoned, nchk, nviol, nskip, pcache, bstart>>
      ELSE \E v0 \in {Verdict(e)} :
           \E v \in {IF v0.k = "ok" /\ ~DualOK(e) THEN Bad("second trace differs") ELSE v0} :
              /\ slots' = v.slots
@@ -343,6 +384,7 @@ StepOf(e) ==
              /\ nskip' = IF v.k = "poison" THEN nskip + 1 ELSE nskip
              /\ IF v.k = "viol" THEN PrintT(<<"VIOL", l, e.op, v.why>>) ELSE TRUE
              /\ pcache' = v.pc
+             /\ bstart' = IF e.op = "rand_begin" THEN l ELSE bstart
 
 Step ==
   /\ l <= Len(Rec)
@@ -352,7 +394,7 @@ Step ==
 Finish == /\ l = Len(Rec) + 1
           /\ l' = l + 1
           /\ PrintT(<<"DONE", Len(Rec), nchk, nviol, nskip>>)
-          /\ UNCHANGED <<slots, it, poisoned, nchk, nviol, nskip, pcache>>
+          /\ UNCHANGED <<slots, it, poisoned, nchk, nviol, nskip, pcache, bstart>>
 
 Spec == Init /\ [][Step \/ Finish]_vars
 
